@@ -29,12 +29,13 @@ static MModel base_model()
     return m;
 }
 
-static const int NFAULT = 30;
+static const int NFAULT = 35;
 static const char* FAULTNAME[NFAULT] = {"none", "duplicate-location-name", "location-named-like-local-variable", "duplicate-template-name", "unknown-source-ref", "unknown-target-ref",
     "unknown-init-ref", "duplicate-global-variable", "duplicate-local-variable", "syntax-error-in-guard", "unknown-identifier-in-invariant", "duplicate-process", "too-few-arguments", "too-many-arguments",
     "duplicate-id", "duplicate-function", "location-named-like-parameter", "syntax-error-in-declaration", "syntax-error-in-parameters", "unknown-template-in-system", "duplicate-select-binder",
     "syntax-error-in-system", "type-error-in-update", "instance-named-like-template",
-    "init-without-ref", "no-init-element", "target-is-a-parameter", "target-is-a-local-variable", "target-is-a-function", "target-is-a-clock"};
+    "init-without-ref", "no-init-element", "target-is-a-parameter", "target-is-a-local-variable", "target-is-a-function", "target-is-a-clock",
+    "init-is-a-branchpoint", "init-is-a-local-variable", "duplicate-function-local-variable", "duplicate-function-parameter", "variable-named-like-function"};
 // returns false if the fault cannot be expressed in the chosen format
 static bool inject(MModel& m, int fault, int pos, bool xml)
 {
@@ -64,6 +65,13 @@ static bool inject(MModel& m, int fault, int pos, bool xml)
     case 21: m.system = "P2 = T(K, h); system P2, , U;"; return true;
     case 22: t.edges[pos % 4].assign = "g = c"; return true;
     case 23: m.system = "T = T(1, g); system T, U;"; return true;
+    // init names something of the template that is not a location
+    case 30: if (xml) t.init_ref_override = t.bps[0]; else t.init_name_override = "_" + t.bps[0]; return true;
+    case 31: if (xml) { m.templs[1].locs.push_back(MLoc{"id19", "loc"}); t.init_ref_override = "id19"; } else t.init_name_override = "loc"; return true;
+    // duplicates inside functions, and between the kinds of declarations
+    case 32: (pos % 2 ? m.gdecl : t.decls) += " int f3(int p) { int q = p; int q = 2; return q; }"; return true;
+    case 33: (pos % 2 ? m.gdecl : t.decls) += " int f4(int p, int p) { return p; }"; return true;
+    case 34: (pos % 2 ? m.gdecl : t.decls) += " int f5() { return 1; } int f5; int f6; int f6() { return 2; }"; return true;
     case 24: case 25: return xml;   // applied to the node stream below
     // the target of an edge names something that exists in the template's scope but is not a location
     case 26: case 27: case 28: case 29: {
@@ -79,7 +87,7 @@ static bool inject(MModel& m, int fault, int pos, bool xml)
     return false;
 }
 
-extern "C" void harness_recovery()  /* vf: bounds=2_formats(XML_node_stream,whole-file_XTA)_x_30_faults_x_4_fault_positions_in_a_2-template_model_with_branchpoint,select,functions,chained_partial_instantiation reach=end */
+extern "C" void harness_recovery()  /* vf: bounds=2_formats(XML_node_stream,whole-file_XTA)_x_35_faults_x_4_fault_positions_in_a_2-template_model_with_branchpoint,select,functions,chained_partial_instantiation reach=end */
 {
     bool xml = vf_pick("!xml", 2);
     int fault = vf_pick("!fault", NFAULT), pos = vf_pick("!position", 4);
